@@ -38,6 +38,11 @@ type branchMatcher struct {
 	charClass    [256]bool
 	minMatch     int
 	hasCharClass bool
+
+	// For "literal + one character of a class" branches such as ba[rz], which
+	// is what the parser makes of bar|baz: the byte after the literal has to be
+	// in tail.
+	tail *[256]bool
 }
 
 // NewBranchDispatcher creates a dispatcher for an anchored alternation.
@@ -136,6 +141,22 @@ func isExactDispatchBranch(re *syntax.Regexp) bool {
 			}
 		}
 		return len(cc.Rune) > 0
+	case syntax.OpConcat:
+		// literal followed by exactly one character of an ASCII class (the
+		// factored form of bar|baz)
+		if len(re.Sub) != 2 || re.Sub[0].Op != syntax.OpLiteral || re.Sub[1].Op != syntax.OpCharClass {
+			return false
+		}
+		if !isExactDispatchBranch(re.Sub[0]) {
+			return false
+		}
+		cc := re.Sub[1]
+		for i := 0; i+1 < len(cc.Rune); i += 2 {
+			if cc.Rune[i+1] > 127 {
+				return false
+			}
+		}
+		return len(cc.Rune) > 0
 	default:
 		return false
 	}
@@ -214,6 +235,16 @@ func buildBranchMatcher(re *syntax.Regexp) branchMatcher {
 				}
 				m.literal[i] = byte(r)
 			}
+			if len(re.Sub) == 2 && re.Sub[1].Op == syntax.OpCharClass {
+				var tail [256]bool
+				cc := re.Sub[1]
+				for i := 0; i+1 < len(cc.Rune); i += 2 {
+					for r := cc.Rune[i]; r <= cc.Rune[i+1] && r <= 255; r++ {
+						tail[byte(r)] = true
+					}
+				}
+				m.tail = &tail
+			}
 		}
 	}
 
@@ -245,6 +276,9 @@ func (d *BranchDispatcher) IsMatch(haystack []byte) bool {
 			if haystack[i] != b {
 				return false
 			}
+		}
+		if m.tail != nil {
+			return len(haystack) > len(m.literal) && m.tail[haystack[len(m.literal)]]
 		}
 		return true
 	}
@@ -294,6 +328,12 @@ func (d *BranchDispatcher) Search(haystack []byte) (int, int, bool) {
 			if haystack[i] != b {
 				return -1, -1, false
 			}
+		}
+		if m.tail != nil {
+			if len(haystack) > len(m.literal) && m.tail[haystack[len(m.literal)]] {
+				return 0, len(m.literal) + 1, true
+			}
+			return -1, -1, false
 		}
 		return 0, len(m.literal), true
 	}
